@@ -122,6 +122,48 @@ def cmd_selftest(args):
     return 1 if bad else 0
 
 
+def cmd_reftest(args):
+    """robustness self-test: every behaviour-preserving refactoring under /verif/refactors/refactor_<prop>_<k>.diff is
+    applied to a scratch copy of /repo/src; the check of <prop> (or the checks given with --props) must NOT report a
+    violation: exit 0 expected, exit 2 (undecided) is reported but tolerated, exit 1 is a false alarm"""
+    import re
+    import shutil
+    import subprocess
+    import tempfile
+    import time
+    rd = os.path.join(VERIF, 'refactors')
+    files = sorted(f for f in os.listdir(rd) if f.endswith('.diff') and (not args.ids or any(i in f for i in args.ids)))
+
+    def one(f):
+        m = re.match(r'refactor_(C\d+)_', f)
+        props = args.props.split(',') if args.props else ([m.group(1)] if m else [])
+        tmp = tempfile.mkdtemp(prefix='vf-reftest-', dir=os.path.expanduser('~/.cache') if os.path.isdir(os.path.expanduser('~/.cache')) else None)
+        lines, bad = [], 0
+        try:
+            shutil.copytree(os.path.join(os.environ.get('VF_REPO', '/repo'), 'src'), os.path.join(tmp, 'src'))
+            r = subprocess.run(['patch', '-p1', '-s', '-i', os.path.join(rd, f)], cwd=tmp, capture_output=True, text=True)
+            if r.returncode != 0:
+                return [f'{f}: patch does not apply (the repository moved on)'], 0
+            for p in props:
+                t0 = time.time()
+                r = subprocess.run([sys.executable, '-m', 'pyvc.cli', 'check', p, '--no-evidence'], cwd=VERIF,
+                                   env=dict(os.environ, VF_REPO=tmp), capture_output=True, text=True)
+                verdict = {0: 'ok', 2: 'undecided (tolerated)'}.get(r.returncode, f'FALSE ALARM (exit {r.returncode})')
+                lines.append(f'{f} against {p}: {verdict} ({time.time() - t0:.0f}s)')
+                bad += r.returncode not in (0, 2)
+        finally:
+            shutil.rmtree(tmp, ignore_errors=True)
+        return lines, bad
+    from concurrent.futures import ThreadPoolExecutor
+    bad = 0
+    with ThreadPoolExecutor(max_workers=max(1, args.jobs)) as ex:
+        for lines, b in ex.map(one, files):
+            for ln in lines:
+                print(ln, flush=True)
+            bad += b
+    return 1 if bad else 0
+
+
 def main():
     ap = argparse.ArgumentParser(prog='vf')
     sub = ap.add_subparsers(dest='cmd', required=True)
@@ -140,8 +182,13 @@ def main():
     st = sub.add_parser('selftest')
     st.add_argument('-j', '--jobs', type=int, default=1)
     st.add_argument('ids', nargs='*')
+    rt = sub.add_parser('reftest')
+    rt.add_argument('-j', '--jobs', type=int, default=1)
+    rt.add_argument('--props', default='')
+    rt.add_argument('ids', nargs='*')
     a = ap.parse_args()
-    rc = {'check': cmd_check, 'replay': cmd_replay, 'selfcheck': cmd_selfcheck, 'selftest': cmd_selftest}[a.cmd](a)
+    rc = {'check': cmd_check, 'replay': cmd_replay, 'selfcheck': cmd_selfcheck, 'selftest': cmd_selftest,
+          'reftest': cmd_reftest}[a.cmd](a)
     sys.exit(rc)
 
 
